@@ -221,32 +221,36 @@ inductive Obs where
   | classes (css : List (List Nat))
   deriving Repr, DecidableEq
 
-/-- instance store: every slot starts as `new()` -/
-def Store (S : Type) := Nat → S
+/-- instance store: an association list, latest binding first; a slot that was never
+    written holds `new()`.  (Not a function `Nat → S`: closures would re-evaluate.) -/
+def Store (S : Type) := List (Nat × S)
 
-def Store.init {S : Type} (I : Impl S) : Store S := fun _ => I.new
+def Store.init {S : Type} : Store S := []
 
-def Store.set {S : Type} (st : Store S) (k : Nat) (s : S) : Store S :=
-  fun j => if j = k then s else st j
+def Store.get {S : Type} (I : Impl S) : Store S → Nat → S
+  | [], _ => I.new
+  | (j, s) :: r, k => if j = k then s else Store.get I r k
+
+def Store.set {S : Type} (st : Store S) (k : Nat) (s : S) : Store S := (k, s) :: st
 
 /-- one operation on the store -/
 def step {S : Type} (I : Impl S) (st : Store S) : Op → Outcome (Store S × Option Obs)
   | .unite k a b =>
-    match I.unite (st k) a b with
+    match I.unite (st.get I k) a b with
     | .ok s => .ok (st.set k s, none)
     | .err => .err
     | .panic => .panic
   | .find k a =>
-    match I.find (st k) a with
+    match I.find (st.get I k) a with
     | .ok (s, r) => .ok (st.set k s, some (.rep r))
     | .err => .err
     | .panic => .panic
   | .classes k elms =>
-    match classes I (st k) elms with
+    match classes I (st.get I k) elms with
     | .ok (s, css) => .ok (st.set k s, some (.classes css))
     | .err => .err
     | .panic => .panic
-  | .clone i j => .ok (st.set j (st i), none)
+  | .clone i j => .ok (st.set j (st.get I i), none)
 
 /-- replay a history; observations in order -/
 def run {S : Type} (I : Impl S) : Store S → List Op → Outcome (Store S × List Obs)
